@@ -109,6 +109,17 @@ func c17Fresh(c *Case) {
 		fn := &Func{Name: "change", Params: []string{"t"}, Body: Blk(call(V("t")))}
 		run("function/"+meth, &Program{Items: []any{fn, &Rule{Kind: "pattern", Body: Blk(Pr(), ES(CallE(V("change"), Mem(d, "q"))), Pr(), asg(V("al"), Mem(d, "q")), call(V("al")), Pr())}}}, `{"q": [1, 2, 3]}`)
 	}
+	// a print executed while a -r selector is evaluated (through a match block) shows up like any other
+	selp := &Program{Items: []any{&Rule{Kind: "BEGIN", Body: Blk(Pr(S("begin")))}, &Rule{Kind: "pattern", Body: Blk(Pr(S("root"), d))}, &Rule{Kind: "END", Body: Blk(Pr(S("end")))}}}
+	for si, sel := range []Expr{
+		&MatchExpr{Subj: d, Cases: []*MatchCase{{Pats: []Expr{V("v")}, Block: Blk(Pr(S("selecting from"), V("v")))}}},
+		Arr(&MatchExpr{Subj: Mem(d, "a"), Cases: []*MatchCase{{Pats: []Expr{V("v")}, Block: Blk(Pr(V("v"), V("v")), Pr())}}}, Mem(d, "b")),
+		Idx(Arr(CallE(V("printf"), S("%v|%5s|\\n"), d, S("x")), Mem(d, "a")), N("1")),
+	} {
+		c.NonTrivial(fmt.Sprintf("fresh:selector-print-%d", si))
+		c.Count("print_after_method_only_changes")
+		m2(c, &M2Case{Prog: selp, Files: []InFile{{Name: "in.json", Data: []byte(`{"a": [1, 2.5, "x"], "b": {}}` + "\n" + `{"a": [], "b": {"k": null}}`)}}, Selectors: []Expr{sel}, Desc: "print inside a -r selector"})
+	}
 	// arguments that print
 	note := &Func{Name: "note", Params: []string{"v"}, Body: Blk(Pr(S("visit"), Bin("*", V("v"), N("2")), Arr(V("v"))), &Return{X: V("v")})}
 	run("arguments-that-print", &Program{Items: []any{note, &Rule{Kind: "BEGIN", Body: Blk(Pr(S("warm"), S("up"), Arr(N("1"), N("2"), N("3")), S("a long first line to size any buffer")),
@@ -142,7 +153,7 @@ func randAnyDouble(rng *rand.Rand) float64 {
 	return randDouble(rng)
 }
 
-var c17Strs = []string{"%", "100%", "%d items %s", "50%% off", "", " ", "plain", "with space", "non-ascii é 日本", "tab\there", "brackets [1, 2]", "braces {k: v}", "comma, colon: x", "<circular reference>", "null", "12"}
+var c17Strs = []string{"a\x7fb", "\U000e0001", "\u0085x", "\u00a0", "\u200b\ufeff", "%", "100%", "%d items %s", "50%% off", "", " ", "plain", "with space", "non-ascii é 日本", "tab\there", "brackets [1, 2]", "braces {k: v}", "comma, colon: x", "<circular reference>", "null", "12"}
 
 func (g *c17Gen) value(depth int) any {
 	k := g.rng.IntN(12)
